@@ -949,7 +949,40 @@ class Verifier:
         st.fact(z3.ForAll([y], z3.Implies(z3.Select(r.z, y), z3.Exists([i], z3.And(dom, cond, ez == y)))))
         return r
 
+    def flatten_comprehension(self, node, st):
+        """[b for a in A for b in F(a)] (no conditions, the element is the inner target) over symbolic sequences: a fresh
+        sequence r with the sound, incomplete fact that every element of every F(A[i]) occurs in r (nothing about order,
+        multiplicity or other elements)"""
+        g0, g1 = node.generators
+        if g0.ifs or g1.ifs or g0.is_async or g1.is_async or not isinstance(g1.target, ast.Name) \
+                or not isinstance(node.elt, ast.Name) or node.elt.id != g1.target.id or not isinstance(g0.target, ast.Name):
+            raise Unsupported('nested comprehension')
+        outer = self.ev(g0.iter, st)
+        if not (isinstance(outer, SV) and isinstance(outer.t, SeqT)):
+            raise Unsupported('nested comprehension over %r' % (outer,))
+        i = z3.Int(fresh_name('fi'))
+        j = z3.Int(fresh_name('fj'))
+        sub = st.fork()
+        sub.env = dict(st.env)
+        sub.env[g0.target.id] = SV(outer.t.elem, outer.z[i])
+        self.spec_mode += 1
+        try:
+            inner = self.ev(g1.iter, sub)
+        finally:
+            self.spec_mode -= 1
+        if not (isinstance(inner, SV) and isinstance(inner.t, SeqT)):
+            raise Unsupported('nested comprehension: inner iterable %r' % (inner,))
+        for c in sub.pc[len(st.pc):]:
+            # facts assumed while evaluating the inner iterable (callee postconditions) hold for every i in range
+            st.fact(z3.ForAll([i], z3.Implies(z3.And(i >= 0, i < z3.Length(outer.z)), c)))
+        r = fresh(SeqT(inner.t.elem), 'flat')
+        st.fact(z3.ForAll([i, j], z3.Implies(z3.And(i >= 0, i < z3.Length(outer.z), j >= 0, j < z3.Length(inner.z)),
+                                             z3.Contains(r.z, z3.Unit(inner.z[j])))))
+        return r
+
     def comprehension(self, node, st, kind):
+        if len(node.generators) == 2:
+            return self.flatten_comprehension(node, st)
         if len(node.generators) != 1:
             raise Unsupported('nested comprehension')
         g = node.generators[0]
